@@ -161,6 +161,7 @@ int *arrNewPat(int n, int *len) {
 }
 int arrSum(const int *arr, int n) { Guard g; int s = 0; for (int i = 0; i < n; i++) s += arr[i]; return s + 1000000 * n; }
 void charGrow(char *s) { Guard g; std::strcat(s, "!!"); }
+int charArrLen(char **names, int n) { Guard g; int t = 0; for (int i = 0; i < n; i++) if (names[i]) t += static_cast<int>(std::strlen(names[i])) + 100; return t; }
 Item &refItem() { Guard g; return *borrowItem(); }
 std::vector<double> vecRetD(int n) { Guard g; std::vector<double> v; for (int i = 0; i < n; i++) v.push_back(0.25 + i); return v; }
 
